@@ -159,6 +159,11 @@ LAYOUTS = ["{0}\n", "{0}", "  {0}\n" if False else "if x:\n  {0}\n", "if x:\n\t{
 
 def in_domain(ref_tokens) -> bool:
     import ast
+    # oracle defect (CPython 3.12.1 `tokenize`): for a token that spans lines, the END column on its last line is reduced by the number
+    # of extra UTF-8 bytes of non-ASCII text on its FIRST line ("\u00e9 \'\'\'a\\nb\'\'\'" ends at (2, 3), with "e" at (2, 4)).  Such inputs
+    # cannot be judged against it.
+    if any(t[2][0] != t[3][0] for t in ref_tokens) and any(not str(t[1]).isascii() for t in ref_tokens):
+        return False
     for t in ref_tokens:
         if t[0] == "NUMBER":
             try:
